@@ -137,6 +137,10 @@ func c12Forms(sc *c07Schema) []c12Form {
 		{"user-function", "vf_id(" + r(v) + ")", "num"},
 		{"nested-function", "vf_mul(vf_id(" + r(k) + "), 3)", "num"},
 		{"subquery", "(SELECT " + p + " FROM " + r(items) + ")", "any"},
+		{"subquery-dual-star", "(SELECT * FROM dual)", "any"},
+		{"subquery-dual-star-item", "(SELECT *, 1 AS one FROM dual)", "any"},
+		{"subquery-dual-cmp-star", "(SELECT " + r(k) + " = 1 AS f, * FROM dual)", "any"},
+		{"subquery-dual-nested", "(SELECT (SELECT * FROM dual) AS inner1, 2 AS two FROM dual)", "any"},
 		{"subquery-where", "(SELECT " + p + " AS pv FROM " + r(items) + " WHERE " + p + " > 1)", "any"},
 		{"async-call", "ASYNC.vf_id(" + r(v) + ")", "num"},
 		{"once-call", "ONCE.vf_id(7)", "num"},
@@ -369,7 +373,7 @@ func init() {
 	Register(&Prop{
 		ID:    "C12",
 		Title: "Results are plain self-contained data and evaluation is deterministic",
-		Rule: "rapid draws a document and (2/3) one of 60 expression forms (columns, literals of every kind, arithmetic, unary, comparisons, IN, BETWEEN, LIKE, " +
+		Rule: "rapid draws a document and (2/3) one of 64 expression forms (columns, literals of every kind, arithmetic, unary, comparisons, IN, BETWEEN, LIKE, " +
 			"IS, NOT, AND/OR, CASE with and without ELSE, built-in and user function calls, nested calls, subqueries, ASYNC / ONCE / SPIN / SPINASYNC " +
 			"calls, SETVAR/GETVAR, FUSE, CONSTANT, 14 built-ins with NULL / missing arguments) placed in one of 20 positions (select item aliased/unaliased, function argument, array element, " +
 			"CASE branch/else/condition, IN list, WHERE, subquery select list, grouped select list, HAVING, joined select list, CTE and derived-table " +
